@@ -231,8 +231,7 @@ def coqchk(prop, log=print):
 
 
 # ---------------------------------------------------------------------------
-def run_model(lines):
-    """lines: iterable of 'tag sexp' strings -> list of output lines"""
+def _run_driver(lines):
     data = ('\n'.join(lines) + '\n').encode('latin-1')
     p = subprocess.run([os.path.join(OCAML, 'driver')], input=data, stdout=subprocess.PIPE,
                        stderr=subprocess.PIPE, timeout=3000,
@@ -243,7 +242,26 @@ def run_model(lines):
     out = p.stdout.decode('latin-1').split('\n')
     if out and out[-1] == '':
         out.pop()
+    if len(out) != len(lines):
+        raise RuntimeError('driver answered %d lines for %d requests' % (len(out), len(lines)))
     return out
+
+
+def run_model(lines):
+    """lines: iterable of 'tag sexp' strings -> list of output lines (one per request line, same order).
+    The extracted driver is a pure function of each line, so large batches are spread over several driver processes."""
+    lines = list(lines)
+    if not lines:
+        return []
+    nproc = min(16, max(1, len(lines) // 100))
+    if nproc == 1:
+        return _run_driver(lines)
+    import concurrent.futures
+    size = (len(lines) + nproc - 1) // nproc
+    chunks = [lines[i:i + size] for i in range(0, len(lines), size)]
+    with concurrent.futures.ThreadPoolExecutor(max_workers=len(chunks)) as ex:
+        outs = list(ex.map(_run_driver, chunks))
+    return [l for o in outs for l in o]
 
 
 def impl_env(hashseed=0):
